@@ -180,6 +180,8 @@ type node struct {
 	deposit  int    // deployed-code length (create kinds, oReturn); >= span
 	keep     uint64 // gas left for the init frame before the oversized RETURN (oCodeStoreOOG)
 	parent   *node
+	pre      int    // >0: the frame is a call to precompiled contract 0x..<pre> (leaf, no program); gasArg fixed by the generator
+	preInput int    // 0 empty, 1 zeros of the natural input length, 2 junk (0x01..) of the natural length, 3 ten junk bytes
 	alias    *node  // leaf only: this frame runs the program of an EARLIER leaf again (same callee address / same init code and salt)
 	gasArg   uint64 // gas operand the parent passes (call family)
 	need     uint64 // estimated gas need of this frame
@@ -265,6 +267,10 @@ func (n *node) String() string {
 		sb.WriteString(">" + outName[n.alias.out])
 		return sb.String()
 	}
+	if n.pre > 0 {
+		fmt.Fprintf(&sb, "->precompile%d(gas=%d,in=%s)", n.pre, n.gasArg, []string{"empty", "zeros", "junk", "short"}[n.preInput])
+		return sb.String()
+	}
 	sb.WriteString("[")
 	for i, s := range n.steps {
 		if i > 0 {
@@ -299,6 +305,8 @@ const (
 	logDataOff = 0x1000
 	zeroOff    = 0x1400
 	sigOff     = 0x1500
+	preZeroOff = 0x2000 // never written: all-zero precompile input
+	preJunkOff = 0x2400 // filled with 0x01 bytes
 	initOff    = 0x1800
 	satGas     = uint64(1) << 50
 	maxCode    = 245760 // vm.MaxCodeSize
@@ -350,12 +358,16 @@ func max64(a, b uint64) uint64 {
 func estLen(n *node) uint64 {
 	l := uint64(80)
 	for _, s := range n.steps {
-		if s.k == sChild {
+		if s.k == sChild && s.child.pre > 0 {
+			l += 700
+		} else if s.k == sChild {
 			if s.child.kind.creates() {
 				l += 60 + estLen(s.child.prog())
 			} else {
 				l += 70
 			}
+		} else if s.k == sChild && s.child.pre > 0 {
+			l += 700
 		} else if s.k == sAuthCall {
 			l += 220
 		} else {
@@ -401,6 +413,10 @@ func budget(n *node, predFail func(*node) bool) uint64 {
 			after = satAdd(after, 400_000)
 		case sChild:
 			c := s.child
+			if c.pre > 0 { // a failing precompile consumes everything it was given
+				after = satAdd(200_000, max64(satAdd(satMul(c.gasArg, 65)/64, 1000), satAdd(c.gasArg, after)))
+				continue
+			}
 			cn := budget(c.prog(), predFail)
 			if c.kind.creates() || c.gasMode == gasAll {
 				ovh := uint64(80_000)
@@ -547,6 +563,36 @@ func (c *compiler) body(n *node) []byte {
 			a.op(opAUTHCALL, opPOP)
 		case sChild:
 			ch := s.child
+			if ch.pre > 0 {
+				inOff, inLen := uint64(preZeroOff), uint64(preNaturalLen[ch.pre])
+				switch ch.preInput {
+				case 0:
+					inLen = 0
+				case 2, 3:
+					inOff = preJunkOff
+					if ch.preInput == 3 {
+						inLen = 10
+					}
+					for w := uint64(0); w < (inLen+31)/32; w++ {
+						a.pushN(bytes32(0x01))
+						a.push(preJunkOff + 32*w)
+						a.op(opMSTORE)
+					}
+				}
+				a.push(0)
+				a.push(0)
+				a.push(inLen)
+				a.push(inOff)
+				if ch.kind == kCall || ch.kind == kCallCode {
+					a.push(ch.value)
+				}
+				a.pushAddr(precompileAddr(ch.pre))
+				a.push(ch.gasArg)
+				a.op(map[fkind]byte{kCall: opCALL, kCallCode: opCALLCODE, kDelegate: opDELEGATECALL, kStatic: opSTATICCALL}[ch.kind])
+				a.push(uint64(ch.id))
+				a.op(opMSTORE8)
+				continue
+			}
 			if ch.kind.creates() {
 				init := c.body(ch.prog())
 				c.inits[ch.prog().id] = init
@@ -711,4 +757,72 @@ func staticCtx(n *node) common.Address {
 		panic("AUTHCALL step in a frame whose address is not known in advance")
 	}
 	return a
+}
+
+// natural input length of precompile 1..18
+var preNaturalLen = []int{0, 128, 32, 32, 32, 96, 128, 96, 192, 213, 256, 160, 160, 512, 288, 288, 384, 64, 128}
+
+func precompileAddr(i int) common.Address {
+	var a common.Address
+	a[19] = byte(i)
+	return a
+}
+
+func isPrecompileAddr(a common.Address) bool {
+	for i := 0; i < 19; i++ {
+		if a[i] != 0 {
+			return false
+		}
+	}
+	return a[19] >= 1 && a[19] <= 18
+}
+
+func bytes32(b byte) []byte {
+	o := make([]byte, 32)
+	for i := range o {
+		o[i] = b
+	}
+	return o
+}
+
+// preMinCost: lower bound of RequiredGas for any input (0 = not relied upon).
+var preMinCost = []uint64{0, 3000, 60, 600, 15, 0, 150, 6000, 45000, 0, 600, 12000, 0, 4500, 55000, 0, 115000, 5500, 110000}
+
+// preMustFail: cases in which the precompile call cannot succeed whatever else happens: less gas
+// (operand + 2300 stipend of a value-bearing CALL/CALLCODE) than the minimum price, or an input the
+// precompile rejects by its length / an off-curve point.
+func preMustFail(n *node) string {
+	avail := n.gasArg
+	if n.value > 0 && (n.kind == kCall || n.kind == kCallCode) {
+		avail += 2300
+	}
+	if avail < preMinCost[n.pre] {
+		return "gas below the precompile's price"
+	}
+	inLen := preNaturalLen[n.pre]
+	switch n.preInput {
+	case 0:
+		inLen = 0
+	case 3:
+		inLen = 10
+	}
+	switch n.pre {
+	case 9:
+		if inLen != 213 || n.preInput == 2 {
+			return "blake2F input rejected"
+		}
+	case 8:
+		if inLen%192 != 0 || n.preInput == 2 {
+			return "bn256 pairing input rejected"
+		}
+	case 6, 7:
+		if n.preInput == 2 {
+			return "bn256 point not on curve"
+		}
+	case 10, 11, 13, 14, 16, 17, 18:
+		if inLen != preNaturalLen[n.pre] {
+			return "bls12-381 input length rejected"
+		}
+	}
+	return ""
 }
